@@ -1,6 +1,7 @@
 package main
 
 import (
+	"runtime"
 	"fmt"
 	"os"
 	"path/filepath"
@@ -125,6 +126,7 @@ func (n *Node) Start() (err error) {
 		}
 	}()
 	n.constructing = true
+	defer n.enterEnv()()
 	appOpts := simtestutil.AppOptionsMap{"home": n.Home}
 	if n.Cfg.InvCheck > 0 {
 		appOpts["inv-check-period"] = uint(n.Cfg.InvCheck)
@@ -240,3 +242,47 @@ func (n *Node) DeliverStores() StoreGetter {
 func (n *Node) DeliverCtx() sdk.Context { return n.App.NewContext(false, n.Env.Header(n.curHdr)) }
 
 var _ = storetypes.StoreTypeIAVL
+
+// enterEnv gives the code that runs next the process environment of this node's machine - what differs between two
+// operators' hosts and must never reach a transaction result: HOME, USER, locale, cosmovisor variables, the working
+// directory, the number of OS threads Go may use. The reference replica keeps the environment of the test process.
+// Returns the function that restores it. (The host name and CPU count cannot be changed from inside the process.)
+var perNodeEnv bool
+
+func (n *Node) enterEnv() func() {
+	if !perNodeEnv || n.ID == 0 || n.ID >= 1000 {
+		return func() {}
+	}
+	vars := map[string]string{
+		"HOME": fmt.Sprintf("/home/operator%d", n.ID), "USER": fmt.Sprintf("op%d", n.ID), "LOGNAME": fmt.Sprintf("op%d", n.ID),
+		"LANG": []string{"C", "ko_KR.UTF-8", "tr_TR.UTF-8"}[n.ID%3], "LC_ALL": []string{"C", "ko_KR.UTF-8", "tr_TR.UTF-8"}[n.ID%3],
+		"HOSTNAME": fmt.Sprintf("validator-%d", n.ID), "DAEMON_NAME": "panacead", "DAEMON_HOME": n.Home, "NODE_ID": fmt.Sprint(n.ID),
+		"PANACEAD_HOME": n.Home, "PANACEAD_TELEMETRY_ENABLED": []string{"true", "false"}[n.ID%2], "GODEBUG": "",
+	}
+	old := map[string]*string{}
+	for k, v := range vars {
+		if cur, ok := os.LookupEnv(k); ok {
+			c := cur
+			old[k] = &c
+		} else {
+			old[k] = nil
+		}
+		_ = os.Setenv(k, v)
+	}
+	cwd, _ := os.Getwd()
+	_ = os.Chdir(n.Home)
+	procs := runtime.GOMAXPROCS([]int{1, 2, 4, 16}[n.ID%4])
+	return func() {
+		runtime.GOMAXPROCS(procs)
+		if cwd != "" {
+			_ = os.Chdir(cwd)
+		}
+		for k, v := range old {
+			if v == nil {
+				_ = os.Unsetenv(k)
+			} else {
+				_ = os.Setenv(k, *v)
+			}
+		}
+	}
+}
